@@ -17,6 +17,7 @@ class FuncInfo(object):
         self.lines = (node.lineno, node.end_lineno)
         self.is_property = any(isinstance(d, ast.Name) and d.id == "property" for d in node.decorator_list)
         self.is_setter = any(isinstance(d, ast.Attribute) and d.attr == "setter" for d in node.decorator_list)
+        self.is_deleter = any(isinstance(d, ast.Attribute) and d.attr == "deleter" for d in node.decorator_list)
         self.is_classmethod = any(isinstance(d, ast.Name) and d.id == "classmethod" for d in node.decorator_list)
 
 
@@ -59,6 +60,9 @@ class Sources(object):
                 if cls is not None and fi.is_setter:
                     cls.setters[node.name] = fi
                     self.funcs[(relpath, q + ".setter")] = fi
+                elif cls is not None and fi.is_deleter:
+                    # `@x.deleter`: must not shadow the property getter of the same name
+                    self.funcs[(relpath, q + ".deleter")] = fi
                 else:
                     self.funcs[(relpath, q)] = fi
                     if cls is not None:
